@@ -88,6 +88,15 @@ def replay(project, config, hist, root, iface, layout_seed=None, keep=False, def
 # --------------------------------------------------------------------------------------------
 # histories for seeded (larger) projects
 
+def with_seed_entries(rng, C):
+    """Seeds that are kernels (no routine entry yet) get an own `routines` entry without overrides in most cases: renaming
+    such a seed has to move its entry AND the seed name (Scheduler.rekey_item_cache)."""
+    if C['routines'] or rng.random() < 0.3:
+        return C
+    C = dict(C, routines=[L.routine_entry(s['scope'] + '#' + s['local'] if s['q'] else s['local']) for s in C['seeds']])
+    return C
+
+
 def random_history(rng, project, n):
     ks = C23.callees(project)
     hist, used = [], set()
@@ -198,7 +207,7 @@ def run(ctx):
         for c in gen_tlc_cases(ctx, 32 if quick else 220, 3):
             if time.time() > budget and len(runs) >= 20:
                 break
-            P, C = L.normalize_project(c['P']), L.normalize_config(c['C'])
+            P, C = L.normalize_project(c['P']), with_seed_entries(ctx.rng, L.normalize_config(c['C']))
             add(P, C, c['hist'], True, 'tlc', True)
         ntlc = len(runs)
         # ---- 3. seeded larger projects (several units per file, module-level imports, siblings): no preconditions
@@ -213,6 +222,7 @@ def run(ctx):
             C = C23.simple_config(ctx.rng, P, False)
             if C is None:
                 continue
+            C = with_seed_entries(ctx.rng, C)
             hist = random_history(ctx.rng, P, ctx.rng.choice([1, 2, 2, 3]))
             if hist:
                 add(P, C, hist, True, 'seeded', False, layout=ctx.seed * 31 + i if i % 2 else None)
